@@ -143,6 +143,10 @@ def h_shdr_phdr(ctx):
     cls, little, machine, which = cfg['elfclass'], cfg['little'], cfg['machine'], cfg['which']
     U = ctx.lib('common.utils')
     st = _structs(ctx, cls, little, machine)
+    if cfg.get('copied'):
+        # an ELFFile that went through copy.deepcopy / pickle rebuilds its structs from their state tuple: same decoding
+        import copy
+        st = copy.deepcopy(st)
     name = 'SHDR' if which == 'shdr' else 'PHDR'
     n = L.sizeof(name, cls)
     cells = ctx.bytes('b', n)
@@ -390,7 +394,7 @@ def _tables_instances(tier):
     out = []
     for cls, little in ENVS:
         out.append(dict(elfclass=cls, little=little, nsec=2, nseg=2))
-        out.append(dict(elfclass=cls, little=little, nsec=1, nseg=1, shslack=8, phslack=24, gap=3, tail=5))
+        out.append(dict(elfclass=cls, little=little, nsec=2, nseg=2, shslack=8, phslack=24, gap=3, tail=5))      # entries larger than the structures: the stride is e_*entsize
         out.append(dict(elfclass=cls, little=little, nsec=0, nseg=0))
         out.append(dict(elfclass=cls, little=little, nsec=1, nseg=0, variant='xindex', shslack=16))
         out.append(dict(elfclass=cls, little=little, nsec=1, nseg=1, variant='xnum_sh'))
@@ -424,7 +428,9 @@ HARNESSES = [
       bounds={'all': 'all values of every Elf32/Elf64_Ehdr field; the name-table header lies beyond the image'}),
     H('h1_2_shdr_phdr', h_shdr_phdr,
       lambda tier: [dict(elfclass=c, little=l, machine=m, which=w) for c, l in ENVS for m in (MACH if tier == 'thorough' else ('generic', 'ARM', 'X86_64', 'MIPS'))
-                    for w in ('shdr', 'phdr')], expect=('ok',),
+                    for w in ('shdr', 'phdr')] +
+                   [dict(elfclass=c, little=l, machine=m, which=w, copied=True) for c, l in ENVS[1:3] for m in ('ARM', 'MIPS', 'RISCV', 'AARCH64', 'X86_64') for w in ('shdr', 'phdr')],
+      expect=('ok',),
       desc='Elf_Shdr / Elf_Phdr parse of fully symbolic entries per machine: layout, consumption, sh_type/p_type names belong to the registry and, '
            'for processor-specific codes, to that machine namespace; all other codes raw',
       bounds={'all': 'all 2^32 type codes per table'}),
